@@ -306,6 +306,11 @@ def check(an: Analysis) -> None:
             if isinstance(t, ast.Name):
                 key_names.add(t.id)
 
+        for kn in sorted(key_names):
+            others = [v for _k, v in d.defs(fi, kn) if unwrap(v) is not kc]
+            for v in others:
+                ob1.fail(fi, v, f"the key variable `{kn}` is also bound to something else than the _make_key(...) result: on that path entries are shared between calls whose arguments are not equal and type-identical")
+
         def is_key(e: ast.AST | None) -> bool:
             return e is kc or (isinstance(e, ast.Name) and e.id in key_names)
 
